@@ -45,7 +45,8 @@ def main():
     classes = sorted({tuple(n) for r in results for n in r.get("notes", [])}, key=repr)
     min_classes = plan.get("min_classes", 2)
     vacuous = len(classes) < min_classes and not violations
-    write_evidence(prop, tier, seed, plan, results, classes, wall, len(violations))
+    if not only and not os.environ.get("VF_REPO"):  # evidence describes full runs against /repo itself only
+        write_evidence(prop, tier, seed, plan, results, classes, wall, len(violations))
 
     seen = set()
     for h in known:
